@@ -103,6 +103,24 @@ func (g *genC04) Block(w *World, b int) Block {
 			add(txStep(mkOp("bank_send", g.sink).withN("to", int64(u)).withN("amt", rng.Pick64(1000, 1_000_000_000, 1_000_000_000_000))))
 		}
 	}
+	if rng.Chance(1, 7) {
+		// equal purchases by different buyers in one block (same gauge identity)
+		op := g.buy(rng, g.users[0])
+		delete(op.N, "ref")
+		delete(op.N, "for")
+		delete(op.S, "refstr")
+		if op.N["days"] < 30 {
+			op.N["days"] = 30
+		}
+		n := 2 + rng.Intn(2)
+		for i := 0; i < n; i++ {
+			o2 := mkOp("buy_storage", g.users[i])
+			for k, v := range op.N {
+				o2.N[k] = v
+			}
+			add(txStep(o2))
+		}
+	}
 	blk.Steps = g.net.Apply(rng, b, len(w.nodes), steps)
 	return blk
 }
